@@ -415,6 +415,7 @@ def concat_stack(ctx):
 
             it.lib.overrides[f"jax.numpy.{split_name}"] = split
             it.lib.overrides[f"jax.numpy.{join_name}"] = join
+            it.lib.overrides["jax.numpy.squeeze"] = lambda a, axis=None: a.squeeze(axis=axis)  # function form of the method
             ax = SV(z3.Int("axis"))
             fields = dict(bijections=[AbsBij(bj) for bj in bs], axis=ax, shape=("s",), cond_shape=("c",))
             if cname == "Concatenate":
